@@ -224,6 +224,87 @@ theorem empty_eq_null_targets (e : Entry) (req : AccessReq) (aux : Bool) :
   simp
 
 
+/-! ## the privilege lattice: raising an entry's privilege never loses access -/
+
+theorem privOfBits_bits (p : Priv) : privOfBits p.bits = some p := by cases p <;> decide
+
+theorem includes_trans {a b c : Priv} (h1 : a.includes b = true) (h2 : b.includes c = true) :
+    a.includes c = true := by
+  cases a <;> cases b <;> cases c <;> simp_all [Priv.includes]
+
+theorem includes_refl (p : Priv) : p.includes p = true := by cases p <;> rfl
+
+/-- Administer includes every privilege an element can require -/
+theorem administer_includes (q : Priv) (hq : q ≠ .proxyView) : Priv.administer.includes q = true := by
+  cases q <;> simp_all [Priv.includes]
+
+/-- an entry whose privilege is raised along the lattice (`p'` includes `p`) still satisfies the
+privilege clause of the specification -/
+theorem privOk_mono (p p' : Priv) (o : AccessDesc) (hinc : p'.includes p = true)
+    (h : PrivOk p.bits o) : PrivOk p'.bits o := by
+  obtain ⟨decl, op, p0, q, h1, h2, h3, h4, h5, h6⟩ := h
+  rw [privOfBits_bits] at h3
+  injection h3 with h3
+  subst h3
+  exact ⟨decl, op, p', q, h1, h2, privOfBits_bits p', h4, h5, includes_trans hinc h6⟩
+
+/-- **Raising the privilege of an entry never loses access** (specification): whatever the entry
+granted with privilege `p` it grants with any `p'` that includes `p` — in particular an Administer
+entry grants whatever the same entry would grant with Manage, Operate or View. -/
+theorem entry_privilege_monotone_spec (e : Entry) (req : AccessReq) (p p' : Priv)
+    (hp : e.privilege = p.bits) (hinc : p'.includes p = true) (h : EntryGrants e req) :
+    EntryGrants { e with privilege := p'.bits } req := by
+  obtain ⟨hm, hs, ht, hpo, hx⟩ := h
+  rw [hp] at hpo
+  exact ⟨hm, hs, ht, privOk_mono p p' _ hinc hpo, hx⟩
+
+/-- … and so does the code: with the entry's privilege raised the fabric still allows the request -/
+theorem entry_privilege_monotone (f : Fabric) (req : AccessReq) (e : Entry) (p p' : Priv)
+    (hst : ∀ x ∈ f.acl, x.fabIdx = some f.fabIdx) (hidx : f.fabIdx = req.accessor.fabIdx)
+    (hc : ∀ x ∈ f.acl, ∃ q : Priv, x.privilege = q.bits) (hop : ReadOrWrite req)
+    (he : e ∈ f.acl) (hp : e.privilege = p.bits) (hinc : p'.includes p = true)
+    (h : entryAllow e req req.accessor.auxAclEnabled = true) :
+    fabricAllow { f with acl := f.acl.map (fun x => if x = e then { e with privilege := p'.bits } else x) } req
+      req.accessor.auxAclEnabled = true := by
+  have hg : EntryGrants e req := by
+    have h1 : ∀ x ∈ ({ f with acl := [e] } : Fabric).acl, x.fabIdx = some ({ f with acl := [e] } : Fabric).fabIdx := by
+      intro x hx
+      have : x = e := by simpa using hx
+      rw [this]; exact hst e he
+    have h2 : ∀ x ∈ ({ f with acl := [e] } : Fabric).acl, ∃ q : Priv, x.privilege = q.bits := by
+      intro x hx
+      have : x = e := by simpa using hx
+      rw [this]; exact hc e he
+    obtain ⟨x, hx, hxg⟩ := (fabricAllow_iff { f with acl := [e] } req h1 hidx h2 hop).mp (by simp [fabricAllow, h])
+    have : x = e := by simpa using hx
+    rw [this] at hxg
+    exact hxg
+  have h1 : ∀ x ∈ ({ f with acl := f.acl.map (fun x => if x = e then { e with privilege := p'.bits } else x) } : Fabric).acl,
+      x.fabIdx = some f.fabIdx := by
+    intro x hx
+    simp only [List.mem_map] at hx
+    obtain ⟨y, hy, rfl⟩ := hx
+    split
+    · exact hst e he
+    · exact hst y hy
+  have h2 : ∀ x ∈ ({ f with acl := f.acl.map (fun x => if x = e then { e with privilege := p'.bits } else x) } : Fabric).acl,
+      ∃ q : Priv, x.privilege = q.bits := by
+    intro x hx
+    simp only [List.mem_map] at hx
+    obtain ⟨y, hy, rfl⟩ := hx
+    split
+    · exact ⟨p', rfl⟩
+    · exact hc y hy
+  refine (fabricAllow_iff _ req h1 hidx h2 hop).mpr
+    ⟨{ e with privilege := p'.bits }, ?_, entry_privilege_monotone_spec e req p p' hp hinc hg⟩
+  simp only [List.mem_map]
+  exact ⟨e, he, by simp⟩
+
+/-- hypotheses of the monotonicity theorems are satisfiable: Manage includes Operate, and an entry
+with a canonical privilege exists in every configuration built through the API -/
+example : Priv.manage.includes .operate = true ∧ Priv.administer.includes .manage = true ∧
+    Priv.view.includes .operate = false ∧ Priv.proxyView.includes .view = false := by decide
+
 /-! ## CAT version monotonicity -/
 
 /-- the accessor with tag `v` replaced by `v'` -/
